@@ -211,4 +211,74 @@ mod harness {
         forget(sca);
         forget(scb);
     }
+
+    // ------------------------------------------------------------------ C11: laws on the date kinds (date-time x date-time, date x date-time)
+    fn check_laws(a: &ScalarCow<'static>, b: &ScalarCow<'static>) {
+        let ab = a == b;
+        assert!(ab == (b == a), "== must be symmetric");
+        assert!((a != b) == !ab, "!= must be the negation of ==");
+        let lt = a < b;
+        let gt = a > b;
+        assert!(lt == (b > a), "< and > must be duals");
+        assert!(gt == (b < a), "> and < must be duals");
+        assert!((a <= b) == (b >= a), "<= and >= must be duals");
+        let c = a.partial_cmp(b);
+        assert!(c.map(Ordering::reverse) == b.partial_cmp(a), "partial_cmp must be antisymmetric");
+        match c {
+            Some(o) => {
+                assert!((o == Ordering::Equal) == ab, "ordered values: Equal exactly when ==");
+                assert!(lt == (o == Ordering::Less));
+                assert!(gt == (o == Ordering::Greater));
+                assert!(!(ab && (lt || gt)), "equal values are never strictly ordered");
+            }
+            None => {
+                assert!(!lt && !gt, "unordered values satisfy no order relation");
+            }
+        }
+    }
+
+    fn any_datetime(days: i32, secs: i32, off: i8) -> liquid_core::model::DateTime {
+        let base = liquid_core::model::DateTime::from_ymd(2020, 6, 15);
+        let t = *base + time::Duration::days(days as i64) + time::Duration::seconds(secs as i64);
+        let mut a = base;
+        *a = t.to_offset(time::UtcOffset::from_hms(off, 0, 0).unwrap());
+        a
+    }
+
+    /// C11: two date-times (same or different offsets): laws hold, and the same instant is never strictly ordered
+    #[kani::proof]
+    fn c11_laws_datetime_datetime() {
+        let sa: i32 = kani::any();
+        let sb: i32 = kani::any();
+        let oa: i8 = kani::any();
+        let ob: i8 = kani::any();
+        kani::assume(sa >= -90_000 && sa <= 90_000 && sb >= -90_000 && sb <= 90_000);
+        kani::assume(oa >= -12 && oa <= 14 && ob >= -12 && ob <= 14);
+        let a = ScalarCow::new(any_datetime(0, sa, oa));
+        let b = ScalarCow::new(any_datetime(0, sb, ob));
+        check_laws(&a, &b);
+        kani::cover!(sa == sb && oa != ob);
+        forget(a);
+        forget(b);
+    }
+
+    /// C11: a date against a date-time, both directions
+    #[kani::proof]
+    fn c11_laws_date_datetime() {
+        let da: i8 = kani::any();
+        let db: i8 = kani::any();
+        let sb: i32 = kani::any();
+        let ob: i8 = kani::any();
+        kani::assume(da >= -2 && da <= 2 && db >= -2 && db <= 2 && sb >= 0 && sb < 86_400 && ob >= -12 && ob <= 14);
+        let mut d = liquid_core::model::Date::from_ymd(2020, 6, 15);
+        *d = *d + time::Duration::days(da as i64);
+        let a = ScalarCow::new(d);
+        let b = ScalarCow::new(any_datetime(db as i32, sb, ob));
+        check_laws(&a, &b);
+        check_laws(&b, &a);
+        kani::cover!(a < b);
+        kani::cover!(a > b);
+        forget(a);
+        forget(b);
+    }
 }
